@@ -142,46 +142,138 @@ def register(Rg: Registry):
         S.assume(a[0].z * a[0].z + a[1].z * a[1].z + a[2].z * a[2].z == 1)
         return NArr((3,), a, "real")
 
+    def vec3(S, name):
+        return NArr((3,), [S.real(f"{name}{k}") for k in "xyz"], "real")
+
+    # find_unit_vector_on_plane: the contract is its PURPOSE -- for every non-zero normal the result is a unit vector orthogonal to it
+    # (a fresh array; the argument is not written).  Nothing in the clauses or in the proof hints names a local of the carrier: the
+    # hints look at VALUES (3-vectors among the locals, quotients inside the result), so a renamed local or a different but correct way
+    # of producing the vector is judged by the same two equations.
+    def _dot3(a, b):
+        return sum((R(x) * R(y) for x, y in zip(a, b)), z3.RealVal(0))
+
     def fuv_post(E, v, o):
-        u, n = v["result"].items, o["normal_vec3"].items
-        dot = lambda a, b: sum((R(x) * R(y) for x, y in zip(a, b)), z3.RealVal(0))
-        return z3.And(dot(u, u) == 1, dot(u, n) == 0)
+        res = v["result"]
+        if not (isinstance(res, NArr) and res.shape == (3,)):
+            return False
+        u, n = res.items, o["normal_vec3"].items
+        return z3.And(_dot3(u, u) == 1, _dot3(u, n) == 0)
 
-    from pyvc.lemmas import use
+    def fuv_frame(E, v, o):
+        res, n_new, n_old = v["result"], v["normal_vec3"], o["normal_vec3"]
+        if not (isinstance(res, NArr) and isinstance(n_new, NArr) and n_new.shape == (3,)):
+            return False
+        if res.root().uid == n_new.root().uid:
+            return False
+        return z3.And(*[R(x) == R(y) for x, y in zip(n_new.items, n_old.items)])
 
-    def fuv_hint(E, vars):
-        if "u" not in vars or "r" not in vars:
-            return
-        r, n = [R(x) for x in vars["r"].items], [R(x) for x in vars["normal_vec3"].items]
-        u = [R(x) for x in vars["u"].items]
-        use(E, "sum-of-three-squares-zero", *u)
-        use(E, "zero-cross-product-means-parallel", *r, *n)
-        use(E, "parallel-unit-vectors-are-equal-or-opposite", *r, *n, r[0] * n[0] + r[1] * n[1] + r[2] * n[2])
+    from pyvc.lemmas import LEMMAS, lemma as _lem, use
 
-    def fuv_post_hinted(E, v, o):
-        if "r" not in v:  # at a CALL SITE there is no local `r`: the plain statement (unit vector orthogonal to the argument)
-            return fuv_post(E, v, o)
-        r, n = [R(x) for x in v["r"].items], [R(x) for x in o["normal_vec3"].items]
-        cr = (r[1] * n[2] - r[2] * n[1], r[2] * n[0] - r[0] * n[2], r[0] * n[1] - r[1] * n[0])
-        u0 = R(v["result"].items[0])
-        if not (z3.is_app(u0) and u0.decl().kind() == z3.Z3_OP_DIV):
+    def _cr(r, n):
+        return (r[1] * n[2] - r[2] * n[1], r[2] * n[0] - r[0] * n[2], r[0] * n[1] - r[1] * n[0])
+
+    if "cross-product-of-a-scaled-vector" not in LEMMAS:
+        @_lem("cross-product-of-a-scaled-vector", 7)
+        def _scaled_cross(a, b, c, y, n0, n1, n2):
+            lhs, rhs = _cr((a / y, b / y, c / y), (n0, n1, n2)), _cr((a, b, c), (n0, n1, n2))
+            return z3.Implies(y != 0, z3.And(*[y * p == q for p, q in zip(lhs, rhs)]))
+
+    def _vectors(vars):
+        """the 3-vectors of reals among the carrier's locals (by VALUE, whatever they are called)"""
+        out, seen = [], set()
+        for x in vars.values():
+            if isinstance(x, NArr) and x.shape == (3,) and x.uid not in seen and all(kind_of_real(i) for i in x.items):
+                seen.add(x.uid)
+                out.append(x)
+        return out
+
+    def kind_of_real(i):
+        return isinstance(i, Sym) or isinstance(i, (int, float)) or hasattr(i, "numerator")
+
+    def _quotients(items):
+        """(numerators, common denominator) when every item is a quotient by one and the same term"""
+        zs = [R(x) for x in items]
+        if all(z3.is_app(q) and q.decl().kind() == z3.Z3_OP_DIV for q in zs) and all(q.arg(1).eq(zs[0].arg(1)) for q in zs):
+            return [q.arg(0) for q in zs], zs[0].arg(1)
+        return None
+
+    def fuv_div_hint(E, vars):
+        """before a division: a sum of three squares vanishes only if every term does; a vector whose cross product with a UNIT
+        vector vanishes is that vector or its opposite (so a np.allclose test against +-normal would have rejected it); the cross
+        product of a normalised vector is the cross product divided by the norm"""
+        n = [R(x) for x in E.top_old["normal_vec3"].items]
+        for vec in _vectors(vars):
+            w = [R(x) for x in vec.items]
+            use(E, "sum-of-three-squares-zero", *w)
+            use(E, "zero-cross-product-means-parallel", *w, *n)
+            use(E, "parallel-unit-vectors-are-equal-or-opposite", *w, *n, w[0] * n[0] + w[1] * n[1] + w[2] * n[2])
+            if vec.uid not in E.ghost.setdefault("c13-fuv-steps", set()):
+                E.ghost["c13-fuv-steps"].add(vec.uid)
+                cr = _cr(w, n)  # pure geometry, true of ANY vector w: stated once per vector as a step of its own
+                E.prove("find_unit_vector_on_plane/step/a-unit-vector-whose-cross-product-with-a-unit-normal-vanishes-is-plus-or-minus-the-normal",
+                        z3.Implies(z3.And(_dot3(n, n) == 1, _dot3(w, w) == 1, cr[0] == 0, cr[1] == 0, cr[2] == 0),
+                                   z3.Or(z3.And(*[a == b for a, b in zip(w, n)]), z3.And(*[a == -b for a, b in zip(w, n)]))), "annotation")
+            q = _quotients(vec.items)
+            if q is not None:
+                use(E, "cross-product-of-a-scaled-vector", *q[0], q[1], *n)
+
+    def fuv_post_hint(E, vars):
+        """the result as the code built it: (a, b, c) / y  -- unit if y is the norm, orthogonal to whatever (a, b, c) is orthogonal to;
+        a cross product is orthogonal to both factors"""
+        n = [R(x) for x in E.top_old["normal_vec3"].items]
+        for vec in _vectors(vars):  # the result is one of them
+            q = _quotients(vec.items)
+            if q is not None:
+                use(E, "normalised-vector-is-unit", *q[0], q[1])
+                use(E, "scaled-vector-stays-orthogonal", *q[0], q[1], *n)
+            use(E, "cross-product-is-orthogonal", *[R(x) for x in vec.items], *n)
+
+    def fuv_draw_is_generic(E, draw):
+        """ALMOST-SURE hypothesis on the random oracle (a requirement on the draws, assumed where np.random.rand is called): the draw is
+        not parallel to the normal -- needed only when the normal is not a unit vector (for a unit normal the code's own rejection
+        test excludes it).  The excluded draws lie on one line through the origin: a null set of the cube [0, 1)^3."""
+        n = [R(x) for x in E.top_old["normal_vec3"].items]
+        d = [R(x) for x in draw.items]
+        return z3.Or(_dot3(n, n) == 1, *[c != 0 for c in _cr(d, n)])
+
+    def _loop_vector(v, o):
+        vs = [x for x in _vectors(v) if x.uid != v["normal_vec3"].uid]
+        if len(vs) != 1:
             from pyvc.engine import Unsupported
 
-            raise Unsupported("carrier changed shape: result is no longer cross(r, n) / norm")
-        y = u0.arg(1)
-        use(E, "normalised-vector-is-unit", *cr, y)
-        use(E, "cross-product-is-orthogonal", *r, *n)
-        use(E, "scaled-vector-stays-orthogonal", *cr, y, *n)
-        return fuv_post(E, v, o)
+            raise Unsupported("find_unit_vector_on_plane: the rejection loop is expected to carry exactly one 3-vector")
+        return [R(x) for x in vs[0].items]
+
+    class _AnyName(dict):
+        """loop-contract entry that applies to whatever name the loop rebinds"""
+
+        def __init__(self, rule):
+            super().__init__()
+            self.rule = rule
+
+        def get(self, nm, default=None):
+            return self.rule
+
+    def _fresh_vec(eng, cur):
+        from pyvc.values import fresh
+
+        return NArr((3,), [fresh("real", "r") for _ in range(3)], "real")
 
     Rg.add(f"{SG}:find_unit_vector_on_plane", prop="C13",
-           setup=lambda S: dict(normal_vec3=unit3(S, "n")),
+           variants={"unit-normal": lambda S: dict(normal_vec3=unit3(S, "n")),  # a case split of the one contract (every non-zero normal)
+                     "normal-of-any-other-length": lambda S: (lambda n: (S.assume(_dot3(n.items, n.items) != 1), dict(normal_vec3=n))[1])(vec3(S, "n"))},
+           requires=[("normal-is-not-the-zero-vector", lambda E, v, o: _dot3(v["normal_vec3"].items, v["normal_vec3"].items) > 0)],
            returns=lambda S, fr: (lambda a: a)(NArr((3,), [S.real(f"u{k}") for k in "xyz"], "real")),
-           ensures=[("unit-and-orthogonal-to-the-normal", fuv_post_hinted)],
-           loops={0: dict(invariant=[("r-is-a-unit-vector", lambda E, v, o: (lambda it: sum((R(x) * R(x) for x in it), z3.RealVal(0)) == 1)(v["r"].items))],
-                          rebind={"r": lambda eng, cur: NArr((3,), [__import__("pyvc.values", fromlist=["x"]).fresh("real", "r") for _ in range(3)], "real")})},
-           options=dict(exact_tolerances=True, hints={"safety/div-nonzero": fuv_hint}),
-           notes="termination of the rejection loop is not proved (probability-1 argument)")
+           ensures=[("unit-and-orthogonal-to-the-normal", fuv_post),
+                    ("result-is-a-fresh-array-and-the-normal-is-not-written", fuv_frame)],
+           loops={0: dict(invariant=[("candidate-is-a-unit-vector", lambda E, v, o: (lambda w: _dot3(w, w) == 1)(_loop_vector(v, o))),
+                                     ("candidate-is-not-parallel-to-a-non-unit-normal",
+                                      lambda E, v, o: (lambda w, n: z3.Or(_dot3(n, n) == 1, *[c != 0 for c in _cr(w, n)]))(_loop_vector(v, o), [R(x) for x in o["normal_vec3"].items]))],
+                          rebind=_AnyName(_fresh_vec))},
+           options=dict(almost_surely=[("random-draw-not-parallel-to-a-non-unit-normal", fuv_draw_is_generic)],
+                        hints={"safety/div-nonzero": fuv_div_hint, "candidate-is-not-parallel-to-a-non-unit-normal": fuv_div_hint,
+                               "post/unit-and-orthogonal-to-the-normal": fuv_post_hint}),
+           notes="every non-zero normal; np.random.rand is an arbitrary vector of [0, 1)^3; termination of the rejection loop is not proved (probability-1 argument)")
 
     def ppl_post(E, v, o):
         A, n, P, M = o["point_a"].items, o["direction_vector"].items, o["point_p"].items, v["result"].items
@@ -190,9 +282,6 @@ def register(Rg: Registry):
         on_line = z3.Exists([t], z3.And(*[R(M[k]) == R(A[k]) + t * R(n[k]) for k in range(3)]))
         perp = dot([R(P[k]) - R(M[k]) for k in range(3)], n) == 0
         return z3.And(perp, on_line)
-
-    def vec3(S, name):
-        return NArr((3,), [S.real(f"{name}{k}") for k in "xyz"], "real")
 
     Rg.add(f"{SG}:project_point_on_line", prop="C13", pure_inline=True,
            setup=lambda S: dict(point_a=vec3(S, "a"), direction_vector=unit3(S, "n"), point_p=vec3(S, "p")),
@@ -239,11 +328,46 @@ def register(Rg: Registry):
            requires=["sphere_radius > 0", ("distinct-line-points", lambda E, v, o: dist2(v["line_point_a"], v["line_point_b"]) > 0)],
            ensures=[("returns-exactly-the-real-roots-in-order", fsl_post("roots")),
                     ("points-lie-on-the-line-at-their-parameter", fsl_post("points-on-the-line")),
-                    ("coefficients-are-those-of-the-sphere-equation", fsl_post("quadratic-form"))])
+                    ("coefficients-are-those-of-the-sphere-equation", fsl_post("quadratic-form"))],
+           options=dict(backend_first=["coefficients-are-those-of-the-sphere-equation"]))  # the quantified polynomial identity: cvc5 < 1 s, z3 times out (then hands over to cvc5 anyway)
 
 
 # ===========================================================================
 # sphere / frustum sharing centre and end radius
+# The tolerance constants of the UNCHANGED library, as literals (a change of `eps` in the code must not move the contract with it)
+EPS = z3.RealVal("1/1000000")  # volumetric_object.eps
+RTOL, ATOL = z3.RealVal("1/100000"), z3.RealVal("1/100000000")  # numpy's defaults of np.allclose / np.isclose
+
+
+def outside_tolerance_bands(ra, rb, h2, at_c1=None):
+    """POSE-INDEPENDENT precondition of the exact statement: ra = radius of the sphere = radius of the frustum end it sits on, rb = radius of
+    the other end, h2 = squared distance of the end centres.  Nothing to ask when the frustum does not get thinner away from the sphere
+    (rb >= ra).  Otherwise the unchanged code deliberately treats three narrow bands inexactly, and the exact statement excludes them:
+      * `r2 - r1 >= -eps`: radii closer than eps count as equal (the no-taper formula is used);
+      * `np.allclose(radius, other end's radius)` (|ra - rb| <= atol + rtol rb): the sphere may be matched to the other end; this test is
+        reached only for a sphere on the c2 end (the c1 end is tried first), so it is asked only there (at_c1 = "the sphere sits on c1");
+      * `t > 1 + eps`: the slant line leaves the sphere at parameter tau = 2 ra (ra - rb) / (h2 + (ra - rb)^2); for 1 < tau <= 1 + eps the
+        general formula is used beyond the far rim.
+    No coordinate occurs: whatever the code does differently for the same radii and distances at another place is NOT excused here."""
+    return z3.And(z3.Not(in_radius_band(ra, rb, at_c1)), outside_t_band(ra, rb, h2))
+
+
+def in_radius_band(ra, rb, at_c1=None):
+    """the far end is thinner than the sphere's end, but by so little that the code may treat the two radii as EQUAL: by at most eps
+    (`r2 - r1 >= -eps`), or -- for a sphere on the c2 end only -- within np.allclose's tolerance of the other radius"""
+    match = ra - rb <= ATOL + RTOL * rb
+    if at_c1 is not None:
+        match = z3.And(z3.Not(at_c1), match)
+    return z3.And(rb < ra, z3.Or(ra - rb <= EPS, match))
+
+
+def outside_t_band(ra, rb, h2):
+    """the slant line does not leave the sphere at a parameter 1 < tau <= 1 + eps  (tau = 2 ra (ra - rb) / (h2 + (ra - rb)^2)); nothing to ask
+    when the radii differ by at most eps (the code never computes tau then)"""
+    num, den = 2 * ra * (ra - rb), h2 + (ra - rb) * (ra - rb)
+    return z3.Or(ra - rb <= EPS, z3.Not(z3.And(num > den, num <= (1 + EPS) * den)))
+
+
 def _concentric_setup(end, taper=None):
     """sphere centred on the `end` of a frustum of height hh along the unit axis u; taper: None = any radii,
     True = the far end is thinner than the sphere's end (r2 < r1), False = it is not (r2 >= r1)"""
@@ -321,6 +445,16 @@ def _scale_le(t, w):
     return z3.Implies(z3.And(t <= 1, w >= 0), t * w <= w)
 
 
+@_lemma("strictly-larger-factor-strictly-larger-product", 3)
+def _mono_strict(a, b, w):
+    return z3.Implies(z3.And(a < b, w > 0), a * w < b * w)
+
+
+@_lemma("larger-factor-larger-product", 3)
+def _mono(a, b, w):
+    return z3.Implies(z3.And(a <= b, w >= 0), a * w <= b * w)
+
+
 def _cap(r, hh):
     return PI * hh * hh * (3 * r - hh) / 3
 
@@ -370,9 +504,64 @@ def _div_subterms(z):
     return out
 
 
+def _has_numeral(z, q):
+    """does the term contain the rational numeral q?"""
+    stack, seen = [z], set()
+    while stack:
+        x = stack.pop()
+        if x.get_id() in seen:
+            continue
+        seen.add(x.get_id())
+        if z3.is_rational_value(x):
+            if x.eq(q):
+                return True
+            continue
+        if z3.is_quantifier(x):
+            stack.append(x.body())
+        elif z3.is_app(x):
+            stack.extend(x.children())
+    return False
+
+
+def _mentions(z, consts):
+    """does the term contain one of the given uninterpreted constants?"""
+    ids = {c.get_id() for c in consts if z3.is_const(c)}
+    stack, seen = [z], set()
+    while stack:
+        x = stack.pop()
+        if x.get_id() in seen:
+            continue
+        seen.add(x.get_id())
+        if x.get_id() in ids:
+            return True
+        if z3.is_quantifier(x):
+            stack.append(x.body())
+        elif z3.is_app(x):
+            stack.extend(x.children())
+    return False
+
+
 def register_concentric(Rg):
     from pyvc.interp import Rewrite
     from pyvc.lemmas import use
+
+    def note_entry(E, fr):
+        E.ghost["c13-entry-context-size"] = len(E.pc)
+
+    def forget_tolerance_tests(E):
+        """WEAKENING of the proof context (always sound): the outcomes of the np.allclose tests that chose the frustum end (and of any
+        other relative-tolerance test made since entry) are dropped from the hypotheses once the choice has been turned into plain
+        equations.  They are disjunctions of |.| comparisons over products of coordinates: no later step needs them, and the
+        nonlinear solver is slowed down by them a hundredfold."""
+        n0 = E.ghost.get("c13-entry-context-size", len(E.pc))
+        centre = [R(x) for x in E.top_old["sphere"].fields["center"].items]
+
+        def drop(k, h):
+            if k < n0:
+                return False
+            return _has_numeral(h, RTOL) or _mentions(h, centre)
+
+        E.pc[:] = [h for k, h in enumerate(E.pc) if not drop(k, h)]
 
     def h_is_hh(E, v, o):
         return R(v["h"]) == R(v["hh"])
@@ -396,11 +585,22 @@ def register_concentric(Rg):
             tau = z3.Real(fresh_name("tau"))
             E.assume(_tau_def(r1, r2, hh, tau))
             E.ghost["c13-tau"] = tau
+            # the band precondition `1 < tau <= 1 + eps excluded` is stated on the objects (squared centre distance); here it is
+            # turned into a fact about the ghost tau, once, so that every later step sees a linear fact
+            den = hh * hh + (r2 - r1) * (r2 - r1)
+            scale(E, hh * hh, _dot(u, u), 1)
+            use(E, "product-of-positives", hh, hh)
+            use(E, "strictly-larger-factor-strictly-larger-product", z3.RealVal(1), tau, den)
+            use(E, "larger-factor-larger-product", tau, 1 + EPS, den)
+            E.prove("VolSphereFrustumConeIntersection.calc_concentric_intersect_volume/step/crossing-parameter-is-outside-the-librarys-t-band",
+                    z3.Or(tau <= 1, tau > 1 + EPS), "annotation")
         return E.ghost["c13-tau"]
 
     # ---- annotations in the carrier
     def up_is_u(E, v, o):
         c, u, hh, r1, r2 = G_(E, o)
+        tau_of(E, o)
+        forget_tolerance_tests(E)
         for k, x in enumerate(v["up"].items):  # up_k = (hh u_k) / |c2 - c1|, and |c2 - c1| = hh (annotation after h)
             q = R(x)
             if z3.is_app(q) and q.decl().kind() == z3.Z3_OP_DIV:
@@ -517,22 +717,82 @@ def register_concentric(Rg):
         at2 = z3.And(rs == r2, *[a == b for a, b in zip(cs, c2)])
         return z3.And(z3.Or(at1, at2), r1 > 0, r2 > 0, dist2(f.fields["c1"], f.fields["c2"]) > 0)
 
+    def bands_pre(E, v, o):
+        """the library's own tolerance bands (see `outside_tolerance_bands`), stated on radii and the squared centre distance only"""
+        s, f = v["sphere"], v["frustum_cone"]
+        cs, rs = [R(x) for x in s.fields["center"].items], R(s.fields["radius"])
+        c1 = [R(x) for x in f.fields["c1"].items]
+        r1, r2 = R(f.fields["r1"]), R(f.fields["r2"])
+        return outside_t_band(rs, r1 + r2 - rs, dist2(f.fields["c1"], f.fields["c2"]))
+
+    def _radius_band(o):
+        s, f = o["sphere"], o["frustum_cone"]
+        cs, rs = [R(x) for x in s.fields["center"].items], R(s.fields["radius"])
+        c1 = [R(x) for x in f.fields["c1"].items]
+        r1, r2 = R(f.fields["r1"]), R(f.fields["r2"])
+        at1 = z3.And(rs == r1, *[a == b for a, b in zip(cs, c1)])
+        return in_radius_band(rs, r1 + r2 - rs, at1)
+
     def concentric_post(E, v, o):
         """stated on the OBJECTS (usable at call sites): the sphere's radius is one of the end radii, the other end's radius is
-        r1 + r2 - rs, the height is the distance of the end centres (the very root np.linalg.norm produced)"""
+        r1 + r2 - rs, the height is the distance of the end centres (the very root np.linalg.norm produced).
+        EXACT outside the radius bands.  Inside them (the far end thinner by at most eps, or -- sphere on the c2 end -- within
+        np.allclose's tolerance) the code may treat the radii as equal: the result is the exact volume for the radii as given OR the exact
+        volume with the far radius replaced by the sphere's -- two pose-independent values; which of them is returned is not promised
+        (in the unchanged code it depends on whether np.allclose also matches the two centres, i.e. on where the solid sits)."""
         s, f = o["sphere"], o["frustum_cone"]
         rs = R(s.fields["radius"])
         r1, r2 = R(f.fields["r1"]), R(f.fields["r2"])
         h = R(E.sqrt(Sym(dist2(f.fields["c1"], f.fields["c2"]), "real"), nonneg_known=True))
-        return R(v["result"]) == V_sf(rs, r1 + r2 - rs, h)
+        res = R(v["result"])
+        return z3.Or(res == V_sf(rs, r1 + r2 - rs, h), z3.And(_radius_band(o), res == V_sf(rs, rs, h)))
+
+    # union of a sphere with a frustum that shares its centre and radius at one end: inclusion-exclusion over the three closed forms
+    # (the intersection through its VERIFIED contract: its two preconditions are obligations here; get_volume / the volume cache of
+    # the two members are executed as they are)
+    def sfu_setup(end):
+        def setup(S):
+            from swcgeom.utils.volumetric_object import VolSphereFrustumConeUnion
+
+            d = _concentric_setup(end)(S)
+            return dict(self=S.obj(VolSphereFrustumConeUnion, obj1=d["sphere"], obj2=d["frustum_cone"]), hh=d["hh"], r1=d["r1"], r2=d["r2"])
+
+        return setup
+
+    def on_members(clause):
+        return lambda E, v, o: clause(E, dict(sphere=v["self"].fields["obj1"], frustum_cone=v["self"].fields["obj2"]), o)
+
+    def sfu_post(E, v, o):
+        s, f = o["self"].fields["obj1"], o["self"].fields["obj2"]
+        rs, r1, r2 = R(s.fields["radius"]), R(f.fields["r1"]), R(f.fields["r2"])
+        h = R(E.sqrt(Sym(dist2(f.fields["c1"], f.fields["c2"]), "real"), nonneg_known=True))
+        res, rest = R(v["result"]), V_sphere(rs) + V_fr(r1, r2, h)
+        band = _radius_band(dict(sphere=s, frustum_cone=f))  # inside the radius bands: see concentric_post
+        return z3.Or(res == rest - V_sf(rs, r1 + r2 - rs, h), z3.And(band, res == rest - V_sf(rs, rs, h)))
+
+    def sfu_members_kept(E, v, o):
+        s, f, s0, f0 = v["self"].fields["obj1"], v["self"].fields["obj2"], o["self"].fields["obj1"], o["self"].fields["obj2"]
+        same = [R(a) == R(b) for a, b in zip(s.fields["center"].items + f.fields["c1"].items + f.fields["c2"].items,
+                                                s0.fields["center"].items + f0.fields["c1"].items + f0.fields["c2"].items)]
+        return z3.And(R(s.fields["radius"]) == R(s0.fields["radius"]), R(f.fields["r1"]) == R(f0.fields["r1"]), R(f.fields["r2"]) == R(f0.fields["r2"]), *same)
+
+    Rg.add(f"{VO}:VolSphereFrustumConeUnion._get_volume", prop="C13",
+           variants={"sphere-at-c1-end": sfu_setup("c1"), "sphere-at-c2-end": sfu_setup("c2")},
+           requires=[("sphere-shares-centre-and-radius-with-one-end-of-the-frustum", on_members(concentric_pre)),
+                     ("crossing-parameter-outside-the-librarys-own-t-band", on_members(bands_pre))],
+           ensures=[("sphere-plus-frustum-minus-the-integral-of-the-smaller-profile", sfu_post),
+                    ("geometry-of-the-two-members-untouched", sfu_members_kept)],
+           notes="any radii (both taper directions in one), arbitrary pose; the members' volume caches may be filled")
 
     Rg.add(f"{VO}:VolSphereFrustumConeIntersection.calc_concentric_intersect_volume", prop="C13",
            variants={"sphere-at-c1-end/widening": _concentric_setup("c1", False), "sphere-at-c2-end/widening": _concentric_setup("c2", False),
                      "sphere-at-c1-end/taper": _concentric_setup("c1", True), "sphere-at-c2-end/taper": _concentric_setup("c2", True)},
-           requires=[("sphere-shares-centre-and-radius-with-one-end-of-the-frustum", concentric_pre)],
+           requires=[("sphere-shares-centre-and-radius-with-one-end-of-the-frustum", concentric_pre),
+                     ("crossing-parameter-outside-the-librarys-own-t-band", bands_pre)],
            returns="real",
            ensures=[("equals-integral-of-the-smaller-profile", concentric_post)],
-           options=dict(exact_tolerances=True, globals_override={"eps": 0},
+           lemmas=[note_entry],
+           options=dict(backend_first="cvc5",  # the vector algebra of the taper branch: cvc5 decides every step in < 1.2 s, z3 is erratic on three of them
                         hints={"post/equals-integral-of-the-smaller-profile": post_hint},
                         asserts_after={"h": [("height-is-the-centre-distance", h_is_hh)],
                                        "up": [("axis-direction-is-the-unit-axis", up_is_u)],
